@@ -104,7 +104,10 @@ func zzExporter13NotFromPublicData() {
 	st.CipherSuite = ciphersuite.ForID(TLS_AES_128_GCM_SHA256, nil)
 	zzsymAssume(st.CipherSuite != nil)
 	st.SetLocalEpoch(3)
-	st.KeySchedule.ExporterMasterSecret = zzsymBytes("ems", 32)
+	// mid-handshake snapshots (e.g. the State handed to VerifyConnection) have no exporter master secret yet
+	if zzsymChoice("have_exporter_master_secret", 2) == 1 {
+		st.KeySchedule.ExporterMasterSecret = zzsymBytes("ems", 32)
+	}
 	s, err := generateState13(st)
 	zzsymAssert(err == nil, "state13_generated")
 	out, err := s.ExportKeyingMaterial("EXTRACTOR-dtls_srtp", nil, 8)
